@@ -77,16 +77,20 @@ func main() {
 	case "C07":
 		c.resolveAll(true)
 		c.history(all, 400*n)
+		c.poolResidue(c.accepted("ids", "recursive", "leaf", "evolution", "scalars"), 200*n)
 		c.resolveAll(false)
 	case "C08":
 		workers := 8
 		if *tier == "thorough" {
 			workers = 32
 		}
+		c.clusterFirstUse(c.h)
 		c.concurrent(all, workers, 60*n)
+		c.bigByValueStorm()
 		c.descMapOps(200 * n)
 	case "C09":
 		c.requiredFields(c.accepted("ids", "recursive", "leaf", "byvalue", "evolution", "random", "scalars", "maps"), 3*n)
+		c.poolResidue(c.accepted("ids", "recursive", "leaf", "evolution"), 150*n)
 		c.bitsetOps(40 * n)
 	case "C10":
 		c.encodeSide(c.accepted("defaults", "scalars", "leaf", "byvalue"), 4*n, false)
@@ -110,6 +114,7 @@ func main() {
 	case "C15":
 		c.depthProbe(c.accepted("recursive")[0])
 	case "C16":
+		c.bigByValueStorm()
 		c.encodeSide(all, n, true)
 		c.roundTrip(c.accepted("evolution", "leaf", "byvalue", "random"), n)
 	case "C17":
